@@ -112,6 +112,9 @@ def collect(props):
             bn = os.path.basename(p)
             kind = "keep" if bn.startswith("keep") else ("repair" if bn.startswith("repair") else "break")
             items.append((prop, kind, p, expectations(p)))
+    if not props or "keep-agents" in props:
+        for p in sorted(glob.glob(os.path.join(V, "selftest", "keep-agents", "*.diff"))):
+            items.append(("ALL", "keep", p, []))
     for d in sorted(glob.glob(os.path.join(V, "seeded", "*"))):
         meta = os.path.join(d, "meta.json")
         pf = os.path.join(d, "patch.diff")
@@ -149,7 +152,11 @@ def main(argv):
     try:
         subprocess.check_call(["rsync", "-a", "--exclude", "target", "--exclude", ".git", REPO + "/", scratch + "/"])
         base = {}
-        allb = run_checks(sorted(set(x[0] for x in items)), scratch, evdir)
+        allprops = sorted(os.path.basename(p)[:-3].upper() for p in glob.glob(os.path.join(V, "engine", "raftlint", "rules", "c[0-9][0-9].py")))
+        need = set(x[0] for x in items)
+        allb = run_checks(allprops if "ALL" in need else sorted(need), scratch, evdir)
+        if "ALL" in need:
+            allb["ALL"] = (set(("%s:%s" % (p, r), s_) for p, (fl, _f) in allb.items() for (r, s_) in fl), None)
         for prop, (b, fatal) in allb.items():
             if fatal:
                 print("baseline of %s failed:\n%s" % (prop, fatal))
@@ -166,7 +173,12 @@ def main(argv):
                 subprocess.check_call(["rsync", "-a", "--delete", "--exclude", "target", "--exclude", ".git", REPO + "/", scratch + "/"])
                 rc = rc or 1
                 continue
-            failing, fatal, cout = run_check(prop, scratch, evdir)
+            if prop == "ALL":
+                ar = run_checks(allprops, scratch, evdir)
+                failing = set(("%s:%s" % (p, r), s_) for p, (fl, _f) in ar.items() for (r, s_) in fl)
+                fatal = next((f for (_fl, f) in ar.values() if f and "does not compile" in f), None)
+            else:
+                failing, fatal, cout = run_check(prop, scratch, evdir)
             new = sorted(failing - base[prop])
             res = {"patch": name, "kind": kind, "expect": exp, "new_failing": [list(x) for x in new], "wall_s": round(time.time() - t0, 1)}
             if fatal and "does not compile" in fatal:
